@@ -20,6 +20,23 @@ CLAIMED = {
          "no blocking operation or application callback runs under a mutex outside a frozen, justified allow-list; error paths of Listen/Dial keep the endpoint reusable (anchored rules).",
          "Assumes sync.Mutex semantics and the SSA/CFG built by x/tools; behaviour after OS-level failures is not decided beyond the structural retry obligations.",
          "DESIGN.md 4/C12, 3.4 E1,E4"),
+ "C13": ("static analysis: anchored shape rules (dominance, guard atoms, who-may-call, who-may-write) over SSA of internal/core + lock typestate (E1)",
+         "In core.addPipe the Attaching hook precedes proto.AddPipe, added=true is set only under p.lock on the AddPipe==nil and !closing edges, the Attached hook and pipeConnected follow it; "
+         "Detached is raised only from remPipe's goroutine and remPipe only from pipe.Close's once-closure when added; ProtocolBase.AddPipe/RemovePipe have exactly one caller each; "
+         "the id allocator returns a non-zero 31-bit unused id recorded under its lock and ids are freed after the Detached callback; dial/serve pass the right dialer/listener. "
+         "Necessary structural conditions of the lifecycle property for every schedule; the observed event order under a concurrent hook is not decided.",
+         "Rules are anchored in named functions of internal/core: if the mechanism is re-implemented differently the check fails closed with ANCHOR-MISSING (DESIGN 3.2).",
+         "DESIGN.md 4/C13"),
+ "C16": ("static analysis: forward dataflow of length lower bounds on go/cfg (E6d), extracted path-condition predicates compared with the specification over a finite ordering domain (E6b), anchored shape rules",
+         "Every constant index, slice bound and BigEndian access on a []byte path in protocols, transports and core is dominated by a sufficient length check (so no peer-supplied short message can panic a receiver); "
+         "the stream transports reject a size exactly when sz<0 or (maxrx>0 and sz>maxrx) and only then, before allocating. Exhaustive over all functions and paths; resource exhaustion inside crypto/tls, net/http, gorilla is not decided.",
+         "Assumes go/cfg and go/ssa control flow; the pool invariant (C01.1) for Body[0:sz]; library behaviour on hostile input is outside the analysed code.",
+         "DESIGN.md 4/C16, 3.4 E6"),
+ "C19": ("static analysis: channel-capacity guard inference (E10c), resize-arm loop analysis (E10d), option-switch shape rules over SSA (comma-ok assertions, error constants per edge), Set/Get field symmetry",
+         "Every make(chan, n) fed by an option value is guarded n>=0 (n>=1 where a blocking re-send under the lock needs it); the select arm on a resize-notify channel of every per-pipe goroutine leads back to the loop; "
+         "option methods follow the uniform switch shape. Structural necessary conditions for every option name/value; 'takes effect as documented' beyond the stored field is not decided.",
+         "Known finding: xbus resize arm closes the pipe (listed in known_findings.json, not repairable without editing TestXBusResize).",
+         "DESIGN.md 4/C19, 3.4 E10"),
 }
 
 NOT_YET = "check not built yet (work in progress; planned static rules in DESIGN.md section 4)"
